@@ -802,6 +802,17 @@ def r5(prog, ev, rep):
     evalr, _ = prog.evaluator()
     root = prog.find_fn("crate::query::js_path_process")
     n = 0
+    # a helper that only js_path_process calls is part of it (the conversion of the final state moved into a method)
+    callers = {}
+    for q in prog.bodies:
+        for callee, _site in prog.edges().get(q, []):
+            callers.setdefault(prog.owner_fn(callee), set()).add(prog.owner_fn(q))
+
+    def owned_by_root(f, d=0):
+        if f == root:
+            return True
+        cs = {c for c in callers.get(f, ()) if c != f}
+        return d < 3 and bool(cs) and all(owned_by_root(c, d + 1) for c in cs)
     for p in sorted(evalr):
         if prog.is_expansion(prog.owner_fn(p)):
             continue
@@ -810,7 +821,7 @@ def r5(prog, ev, rep):
                 (x.get("k") == "Adt" and x.get("adt") == "crate::parser::errors::JsonPathError")
             if is_err:
                 n += 1
-                rep.check(prog.owner_fn(p) == root, "C08-R5", "%s|Err" % prog.owner_fn(p), T.loc(x), "the top-level Data::Value arm",
+                rep.check(owned_by_root(prog.owner_fn(p)), "C08-R5", "%s|Err" % (root if owned_by_root(prog.owner_fn(p)) else prog.owner_fn(p)), T.loc(x), "the top-level Data::Value arm",
                           "an error is constructed during evaluation in `%s`: evaluating a parsed query could fail" % p)
     if n == 0:
         rep.ok("C08-R5", "no-err", "-", "no Err construction in the evaluator")
